@@ -49,6 +49,10 @@ pub struct SniffCase {
     /// server-side read behaviour (chunking, Pending injection, virtual delays)
     pub read_mode: IoMode,
     pub gap_ms: u64,
+    /// the server's side of the connection is a buffered transport: what the server writes only
+    /// leaves when it flushes (a flush the detector's adapter must pass on)
+    #[serde(default)]
+    pub lazy_server: bool,
 }
 
 pub struct SniffSim;
@@ -276,22 +280,27 @@ fn enumerated(tier: Tier) -> Vec<SniffCase> {
     let plain = IoMode::plain();
     for k in &kinds {
         // unfragmented, byte-at-a-time, every single cut, (thorough: every pair of cuts)
-        v.push(SniffCase { seed: 1, stream: k.clone(), cuts: vec![], read_mode: plain.clone(), gap_ms: 0 });
-        v.push(SniffCase { seed: 1, stream: k.clone(), cuts: (1..32).collect(), read_mode: plain.clone(), gap_ms: 0 });
+        v.push(SniffCase { seed: 1, stream: k.clone(), cuts: vec![], read_mode: plain.clone(), gap_ms: 0, lazy_server: false });
+        v.push(SniffCase { seed: 1, stream: k.clone(), cuts: (1..32).collect(), read_mode: plain.clone(), gap_ms: 0, lazy_server: false });
         for c in 1..32 {
-            v.push(SniffCase { seed: 1, stream: k.clone(), cuts: vec![c], read_mode: plain.clone(), gap_ms: 0 });
+            v.push(SniffCase { seed: 1, stream: k.clone(), cuts: vec![c], read_mode: plain.clone(), gap_ms: 0, lazy_server: false });
         }
         if tier == Tier::Thorough || matches!(k, StreamKind::H2 { .. }) {
             for a in 1..32 {
                 for b in (a + 1)..32 {
-                    v.push(SniffCase { seed: 1, stream: k.clone(), cuts: vec![a, b], read_mode: plain.clone(), gap_ms: 0 });
+                    v.push(SniffCase { seed: 1, stream: k.clone(), cuts: vec![a, b], read_mode: plain.clone(), gap_ms: 0, lazy_server: false });
                 }
             }
         }
     }
+    // the same streams over a buffered server-side transport
+    for k in &kinds {
+        v.push(SniffCase { seed: 1, stream: k.clone(), cuts: vec![], read_mode: plain.clone(), gap_ms: 0, lazy_server: true });
+        v.push(SniffCase { seed: 1, stream: k.clone(), cuts: (1..32).collect(), read_mode: plain.clone(), gap_ms: 0, lazy_server: true });
+    }
     for n in 0..24 {
-        v.push(SniffCase { seed: 1, stream: StreamKind::PrefixEof { n }, cuts: vec![], read_mode: plain.clone(), gap_ms: 0 });
-        v.push(SniffCase { seed: 1, stream: StreamKind::PrefixEof { n }, cuts: (1..24).collect(), read_mode: plain.clone(), gap_ms: 0 });
+        v.push(SniffCase { seed: 1, stream: StreamKind::PrefixEof { n }, cuts: vec![], read_mode: plain.clone(), gap_ms: 0, lazy_server: false });
+        v.push(SniffCase { seed: 1, stream: StreamKind::PrefixEof { n }, cuts: (1..24).collect(), read_mode: plain.clone(), gap_ms: 0, lazy_server: false });
     }
     v
 }
@@ -357,7 +366,7 @@ impl Scenario for SniffSim {
         if matches!(stream, StreamKind::H2 { .. }) {
             read_mode.cap = read_mode.cap.max(512);
         }
-        SniffCase { seed, stream, cuts, read_mode, gap_ms: *r.pick(&[0u64, 0, 1, 10]) }
+        SniffCase { seed, stream, cuts, read_mode, gap_ms: *r.pick(&[0u64, 0, 1, 10]), lazy_server: Rng::keyed(seed, "sniff/lazy").chance(1, 3) }
     }
 
     fn execute(&self, case: &SniffCase) -> Outcome {
@@ -386,7 +395,9 @@ impl Scenario for SniffSim {
                 let ctx = HandlerCtx { net: net.clone(), log: log.clone(), plans: plans.clone(), origin: "http://a.test".into() };
                 let server = tokio::task::spawn_local(run_server(acc, ServerProto::Auto, None, ctx, SimExecutor::default(), None));
                 // the server reads with the configured mode (client -> server direction)
-                let c = net.raw_connect("http://a.test", Some((case.read_mode.clone(), IoMode::plain()))).expect("connect");
+                let mut server_writes = IoMode::plain();
+                server_writes.lazy_flush = case.lazy_server;
+                let c = net.raw_connect("http://a.test", Some((case.read_mode.clone(), server_writes))).expect("connect");
                 let sut = match &case.stream {
                     StreamKind::H2 { body_len } => match tokio::time::timeout(Duration::from_secs(600), h2_exchange(c, case.cuts.clone(), case.gap_ms, *body_len, forced2.clone())).await {
                         Ok(o) => o,
@@ -459,7 +470,10 @@ impl Scenario for SniffSim {
         for c in &case.cuts {
             sig.push(*c as u64);
         }
-        sig.push(case.read_mode.chunk as u64 * 4 + (case.read_mode.pending_pct > 0) as u64 * 2 + (case.read_mode.delay_pct > 0) as u64);
+        sig.push(case.read_mode.chunk as u64 * 4 + (case.read_mode.pending_pct > 0) as u64 * 2 + (case.read_mode.delay_pct > 0) as u64 + 64 * case.lazy_server as u64);
+        if case.lazy_server {
+            out.count("probe.buffered_server_side_transport");
+        }
         out.abstract_sig = sig.0;
         let inside = case.cuts.iter().filter(|c| **c < 24).count();
         out.nontrivial = inside > 0 && forced > 0;
